@@ -244,6 +244,25 @@ func (w *Workspace) writeOut(files map[string]string) error {
 	return nil
 }
 
+// runSebuf runs one sebuf plugin over the unit: once, or once per proto package (spec.PerPackage), merging the files.
+// It returns the files, or the first failure text.
+func (w *Workspace) runSebuf(u *Unit, p, param string) (map[string]string, string) {
+	files := map[string]string{}
+	for _, gen := range u.Low.Spec.Invocations() {
+		r := plug.Run(w.Bins.Path(p), u.Low.Request(param, gen))
+		if !r.Answered() {
+			return nil, "plugin did not answer: " + r.Symptom() + " " + short(r.Stderr, 300)
+		}
+		if r.Err() != "" {
+			return nil, r.Err()
+		}
+		for n, c := range r.Files() {
+			files[n] = c
+		}
+	}
+	return files, ""
+}
+
 func (w *Workspace) generate(u *Unit, gengo string, o Options) error {
 	req := u.Low.Request("", nil)
 	res := plug.RunRaw(gengo, mustMarshal(req))
@@ -269,16 +288,11 @@ func (w *Workspace) generate(u *Unit, gengo string, o Options) error {
 		if p == "protoc-gen-go-http" && o.Mock {
 			param = "generate_mock=true"
 		}
-		r := plug.Run(w.Bins.Path(p), u.Low.Request(param, nil))
-		if !r.Answered() {
-			u.GenErr[p] = "plugin did not answer: " + r.Symptom() + " " + short(r.Stderr, 300)
+		files, ferr := w.runSebuf(u, p, param)
+		if ferr != "" {
+			u.GenErr[p] = ferr
 			continue
 		}
-		if r.Err() != "" {
-			u.GenErr[p] = r.Err()
-			continue
-		}
-		files := r.Files()
 		if o.MockShim {
 			for n, c := range files {
 				if strings.HasSuffix(n, "_http_mock.pb.go") {
@@ -297,16 +311,12 @@ func (w *Workspace) generate(u *Unit, gengo string, o Options) error {
 	}
 	if o.TS {
 		for _, p := range []string{"protoc-gen-ts-client", "protoc-gen-ts-server"} {
-			r := plug.Run(w.Bins.Path(p), u.Low.Request("", nil))
-			if !r.Answered() {
-				u.GenErr[p] = "plugin did not answer: " + r.Symptom() + " " + short(r.Stderr, 300)
+			files, ferr := w.runSebuf(u, p, "")
+			if ferr != "" {
+				u.GenErr[p] = ferr
 				continue
 			}
-			if r.Err() != "" {
-				u.GenErr[p] = r.Err()
-				continue
-			}
-			for n, c := range r.Files() {
+			for n, c := range files {
 				u.TSFiles[n] = c
 				pth := filepath.Join(w.Dir, "ts", u.Name, n)
 				os.MkdirAll(filepath.Dir(pth), 0o755)
@@ -320,16 +330,12 @@ func (w *Workspace) generate(u *Unit, gengo string, o Options) error {
 			params = append(params, "format=json")
 		}
 		for _, param := range params {
-			r := plug.Run(w.Bins.Path("protoc-gen-openapiv3"), u.Low.Request(param, nil))
-			if !r.Answered() {
-				u.GenErr["protoc-gen-openapiv3"] = "plugin did not answer: " + r.Symptom() + " " + short(r.Stderr, 300)
+			files, ferr := w.runSebuf(u, "protoc-gen-openapiv3", param)
+			if ferr != "" {
+				u.GenErr["protoc-gen-openapiv3"] = ferr
 				continue
 			}
-			if r.Err() != "" {
-				u.GenErr["protoc-gen-openapiv3"] = r.Err()
-				continue
-			}
-			for n, c := range r.Files() {
+			for n, c := range files {
 				u.OASFiles[n] = c
 				pth := filepath.Join(w.Dir, "oas", u.Name, n)
 				os.MkdirAll(filepath.Dir(pth), 0o755)
